@@ -95,6 +95,7 @@ public:
     }
 
     [[nodiscard]] std::uint8_t get_cnk() const {
+        YAKUSHIMA_VERIF_POINT(ATOMIC, this);
         std::uint64_t per_body(body_.load(std::memory_order_acquire));
         return static_cast<uint8_t>(per_body & cnk_mask);
     }
